@@ -12,682 +12,625 @@ Definition show_fres (r : fres) : string :=
   end.
 Definition check (rs : list rune) : string := digest (show_fres (format_res rs)).
 Definition full (rs : list rune) : string := show_fres (format_res rs).
-Eval vm_compute in ("<<<M1528>>>" ++ check (runes_of_ascii "options
-    {	BodyLength  =
-char[	7  ]	;
-
-}
-        // c
-
-// @lengthOf(
-packet  asx// " ++ [128512]%N ++ runes_of_ascii " emoji
-
-  {int16 x_y_z
-    ,@calculatedFrom(""""
-	) @lengthOf( 
-    /// triple
-  	chars
-
-)//
-  	repeat
-    repeatCount
-charz
-
-    /// triple
-// " ++ [27880; 37322]%N ++ runes_of_ascii "
-
-  ,
-@leftPad
-	(
-	)i64_
-	@calculatedFrom(""\" ++ [233]%N ++ runes_of_ascii """)
-
-`// not a comment`
-
-    ,tag  Z9_
-`two words`
-
-, @lengthOf( asx )  @calculatedFrom(	""`tick`""
-)
-    match	uint8x
-	as 
-matchKey { 0123456789
-	// packet A { u8 x, }
-	// a // b
-:  u8x
-
+Eval vm_compute in ("<<<M339>>>" ++ check (runes_of_ascii "// @lengthOf(
+packet A { repeat rootA
+{ repeat o , BodyLength i64_ `// not a comment` ,  repeatCount @calculatedFrom(""it's"" ) , }
+    // @lengthOf(
     ,
-    1	:
-zchar  ,
-}
+//x
+//x
+@tag( 0 ) falsey @lengthOf( BodyLength
+), @leftPad ( ) @calculatedFrom( ""1"" )
+@lengthOf(int ) match trueish
+as body // trailing space 
+{ [ 007
+, 7
 ,
-
-u128	@lengthOf(
-
-u128 	 // packet A { u8 x, }
-	) 	 // " ++ [128512]%N ++ runes_of_ascii " emoji
-,  } MetaData
-	msg_type { 
-string  BodyLength
-`two words`,
-	options1	// " ++ [128512]%N ++ runes_of_ascii " emoji
-  i64_ , } 	 // " ++ [128512]%N ++ runes_of_ascii " emoji
-  packet 
-roots {
-
-    u ``
-    ,  @calculatedFrom( ""a	b"" )
-
-match
-len
-as msg_type	{ 
-// c
-    """ ++ [28040; 24687]%N ++ runes_of_ascii """ : charz} , crc
-    @calculatedFrom( 
-	    // packet A { u8 x, }
-  // packet A { u8 x, }
-  ""it's"" 
-)`a\`	, 
-@leftPad  (
-'0' ) 
-@tag(
-007)zchar[  // trailing space 
-    3
-	    // trailing space 
-
-	]falsey
-
-,  @calculatedFrom( // `tick` ""quote"" 'q'
-
-	""\n""
-) @calculatedFrom(
-    ""CRC32""  // c
-) 
-        // trailing space 
-match 
-    //x
-  	Packet as // @lengthOf(
-	stringy {
-
-    1 :	Pad	,""it's""
-:
-    f32a	, },	@leftPad
-(' ')
-    match// " ++ [27880; 37322]%N ++ runes_of_ascii "
-int
-	as
-	a1 {
-
-    [
-
-    0123456789 , 255
-
-]
-
-:
-
-    options1 
-	//x
-
-  //x
-	  }
-    ,  BodyLength 
-//
-
-	@calculatedFrom(
-	""" ++ [28040; 24687]%N ++ runes_of_ascii """),float32 zchar@calculatedFrom(  ""// no comment"" )  ,  @tag(	10 )
-zchar[ 
-
+    ""abc"",
+""x y"" ,  00 , ""// no comment"" ,
+    255, 1
+]: body
+, } , @lengthOf( Pad ) metadata@calculatedFrom( ""it's"" )
+,
+    // `tick` ""quote"" 'q'
+    @leftPad() @calculatedFrom(	""" ++ [233]%N ++ runes_of_ascii "t" ++ [233]%N ++ runes_of_ascii """ ) char falsey `" ++ [233]%N ++ runes_of_ascii "`,char[
+007 ] metadata @lengthOf( chars) , @rightPad ( '0'
+) u8 // c
+roots@calculatedFrom( ""packet"" ) ,
+    string_ MetaDataX ,@lengthOf( Z9_ ) @leftPad ( '\x00' ) /// triple
+@rightPad
+    ( ' ' //
+) MetaDataX
+    `two words`  ,zchar[
+0
+    ]
+body// " ++ [27880; 37322]%N ++ runes_of_ascii "
+`line1
+line2` , } packet
     // packet A { u8 x, }
-  1 ] 
-rootA ,
-} ")).
-Eval vm_compute in ("<<<M123>>>" ++ check (runes_of_ascii "
-packet _x{  leftPad `it's`
-    , match Logon as
-    matchKey { ""packet"" :  stringy,3
-: u
-    ,//
-""1"" : Pad }
-,  float32 Z9_ @lengthOf( i8i8	)
-    `" ++ [233]%N ++ runes_of_ascii "`
-    // " ++ [27880; 37322]%N ++ runes_of_ascii "
-    , @tag( 3 )match
+    uint8x {@rightPad  ( '0' )
     //	t
-    As as Pad{
-"""" : chars
-, ""x y"" //
-: i64_	,  } ,  @calculatedFrom(""it's"" // c
-) @leftPad ( ' '
-) zchar[ 0123456789	] falsey , match	A as packetx
-{ [ 42]:
-matchKey // c
-, }// `tick` ""quote"" 'q'
-,@leftPad
-( ' ' )
-    match x
-    // c
-    as a1 { ""packet"" //x
+    char[]stringy,MetaDataX Z9_ , i8 Logon , } root packet
+    //	t
+    u // " ++ [128512]%N ++ runes_of_ascii " emoji
+{ int64 Z9_
+    , zchar[ 00 ]
+    string_
+    //
+    `" ++ [28040; 24687; 31867; 22411]%N ++ runes_of_ascii "` ,
+    @calculatedFrom(""a\""b""
+    )
+@tag( 3  ) @rightPad (
+'0' ) repeat u32 packetx `two words` , char[42
+] string_ , repeat Header lengthOf ,
+}
+options // packet A { u8 x, }
+{	} packet Header
+// " ++ [128512]%N ++ runes_of_ascii " emoji
+// packet A { u8 x, }
+{ @rightPad
+(//x
+)metadata { char[ 65535// c
+]o, repeat x
+// c
+/// triple
+{char[
+4294967296 ]  options1 , }
+// c
+// a // b
+,
+roots Header, } , }
+")).
+Eval vm_compute in ("<<<M143>>>" ++ check (runes_of_ascii "
+packet  lengthOf
+{  @tag( 65535
+/// triple
+//	t
+)@tag( //	t
+3 ) @tag( 0123456789) options1 @calculatedFrom(""abc""
+    ) , @rightPad
+( '0')falsey @lengthOf( a1  )
+    ,
+    @lengthOf(Pad
+)body @calculatedFrom( // " ++ [128512]%N ++ runes_of_ascii " emoji
+""packet"" ) // trailing space 
+,
+} packet int
+{ string Foo @calculatedFrom(""CRC32"" ) ,}
+root
+// trailing space 
+//	t
+packet uint8x
+    {}
+root packet len { x_y_z
+_x ,
+    BodyLength rootA
+/// triple
+//
+,
+match f32a as Logon
+    {[ ""a\""b"" ,
+""" ++ [28040; 24687]%N ++ runes_of_ascii """
+    ,
+    """ ++ [128512]%N ++ runes_of_ascii """
+,65535, 00 ,4294967296
+    ,
+"""" ,""abc"" ]
+    : roots,[
+    00 ] :
+A ,  [
+    65535
+// a // b
+// trailing space 
+,
+// trailing space 
+// " ++ [128512]%N ++ runes_of_ascii " emoji
+65535
+, """" ]
+// c
+// packet A { u8 x, }
 :
-    a1 , 10 : pack""{,}"" :  u8x// a // b
-, [ 007
-,00// trailing space 
+// " ++ [128512]%N ++ runes_of_ascii " emoji
+// trailing space 
+pack ,
+    }
+    // trailing space 
+    ,repeat Pad `say ""hi""` ,
+    /// triple
+    a1 calculatedFrom
+    ,
+@lengthOf( stringy )char[] As @calculatedFrom( ""\" ++ [233]%N ++ runes_of_ascii """ )
+, zchar[ 0123456789 ] Z9_
+    @lengthOf( repeatCount ) // packet A { u8 x, }
+`a\`
+, repeat // `tick` ""quote"" 'q'
+string lengthOf , //x
+u8 falsey @calculatedFrom(
+""a\\"" )  ,@calculatedFrom( ""it's"") string calculatedFrom @lengthOf( MetaDataX ) ,}")).
+Eval vm_compute in ("<<<M289>>>" ++ check (runes_of_ascii "options  {
+// " ++ [27880; 37322]%N ++ runes_of_ascii "
+//x
+float // packet A { u8 x, }
+=char[]
+    // @lengthOf(
+    ; Header = false
+//
+/// triple
+}
+    // `tick` ""quote"" 'q'
+    options {	x =char[] ; }	MetaData i64_{f64 As
+    /// triple
+    `
+` , repeatCount MetaDataX
+// `tick` ""quote"" 'q'
+// `tick` ""quote"" 'q'
+,
+repeatCount u128 //x
+,	metadata msg_type `tab	here`
+    ,
+    }
+packet  options1
+    {
+    repeat char[0123456789] T  , @tag(  65535
+)
+    //x
+    @calculatedFrom( ""CRC32""
+) @calculatedFrom( """ ++ [28040; 24687]%N ++ runes_of_ascii """ ) repeat string
+Logon
+    ,	@lengthOf( u128 )
+stringy  {string_ x ,
+} , @tag( // " ++ [27880; 37322]%N ++ runes_of_ascii "
+10) u64 tag @lengthOf(roots), Foo	@lengthOf(
+Foo
+)`// not a comment` ,
+string pack `a\` , match A
+    as charz {
+[ 3 ] : x ,} ,@tag(42 ) f64 msg_type @lengthOf(
+trueish )
+,match	pack /// triple
+as
+options1 { """ ++ [28040; 24687]%N ++ runes_of_ascii """ : // packet A { u8 x, }
+string_ ,	[ 65535, 7 ,
+""a\""b""
+    , 7]//	t
+: f32a 4294967296: o ,  }	,
+    char[] falsey ,
+} // " ++ [128512]%N ++ runes_of_ascii " emoji")).
+Eval vm_compute in ("<<<M371>>>" ++ check (runes_of_ascii "root
+    packet
+packetx
+    {
+    @tag( 0) char[00 ] Z9_
+    ,
+    // a // b
+    falsey
+    // c
+    { match
+    x as options1 { [//	t
+42 ,
+    007 ]:
+    uint8x } , uint8 falsey `crlf
+line` , }
+, f64 Pad
+, @tag(7  ) string Logon// " ++ [27880; 37322]%N ++ runes_of_ascii "
+`a\`, @lengthOf(
+lengthOf//	t
+) char[
+3
+    ]
+// " ++ [27880; 37322]%N ++ runes_of_ascii "
+//
+calculatedFrom @calculatedFrom(
+""" ++ [28040; 24687]%N ++ runes_of_ascii """
+)
+, char[]
+    T , //x
+@tag(
+42 ) @leftPad ( )
+    char[]trueish
+@calculatedFrom(""`tick`"" ) ,match
+    // `tick` ""quote"" 'q'
+    uint8x as pack { [
+    ""abc"",
+    ""1"" ,""packet""
+,
+// `tick` ""quote"" 'q'
+// `tick` ""quote"" 'q'
+1,
+    ""a\""b""]: As	, """ ++ [28040; 24687]%N ++ runes_of_ascii """ :
+    trueish ,} ,
+}
+packet/// triple
+charz
+{
+    repeat
+Z9_ { Pad  {match len as string_{
+    // a // b
+    4294967296
+    : msg_type , [""// no comment""
+    ] :u
+    ,
+} ,} , zchar[
+    65535
+] As  @lengthOf(//x
+string_
+)
+,
+} ,
+    }")).
+Eval vm_compute in ("<<<M1400>>>" ++ check (runes_of_ascii "root packet i64_ {
+    trueish,
+    @calculatedFrom(""abc"")
+    @tag(7)
+    // c
+    int16 asx,
+    @calculatedFrom(""a\\"")
+    float32 crc @lengthOf(Foo),
+    @tag(42)
+    zchar[7] asx @lengthOf(calculatedFrom) `// not a comment`,//
+    repeat zchar[1] As,
+    chars `two words`,
+    @calculatedFrom(""1"")
+    @tag(0123456789)
+    @leftPad('0')
+    repeat char[] BodyLength `tab	here`,
+}
+
+MetaData u128 {
+    u16 i64_,
+    float32 asx `two words`,//
+    i64 leftPad,
+    zchar[00] _x,//
+}
+
+MetaData chars {
+    Foo crc `say ""hi""`,
+    uint8 u `two words`,// " ++ [128512]%N ++ runes_of_ascii " emoji
+    f32 pack `crlf
+        line`,
+    string _x `" ++ [233]%N ++ runes_of_ascii "`,
+}
+
+packet x_y_z {
+}
+
+options {
+    calculatedFrom = ""CRC32""
+    crc = uint16;
+    u = false
+    Foo = char
+}// " ++ [128512]%N ++ runes_of_ascii " emoji")).
+Eval vm_compute in ("<<<M288>>>" ++ check (runes_of_ascii "// packet A { u8 x, }
+MetaData
+    _x
+{ //
+char[] len
+    ,}options
+// @lengthOf(
+//
+{ repeatCount =""""
+    ; }// c
+root packet chars {
+    char[ 255
+]u8x,	repeat
+/// triple
+// c
+string repeatCount
+`" ++ [28040; 24687; 31867; 22411]%N ++ runes_of_ascii "` ,
+repeat zchar[ 10
 ]
-:trueish ,
-    ""x y"" :pack //	t
+string_ , @tag( // trailing space 
+255
+    ) i8i8{// packet A { u8 x, }
+options1
+calculatedFrom `u8 x,`
+,
+    i64
+len,
+    roots // c
+{ // @lengthOf(
+repeat
+    // a // b
+    i64_ zchar //
+,
+    } ,
+    }
+, match chars as Packet	{
+""a\""b"": Pad
+,[ ""{,}""
+    ]
+:
+calculatedFrom // a // b
 ,
 """ ++ [233]%N ++ runes_of_ascii "t" ++ [233]%N ++ runes_of_ascii """
-:
-matchKey , } , @leftPad ( '0'
-) uint8x u
-    ,	zchar[
-    3 // a // b
-]
-    //	t
-    u ``
-    , @rightPad (
-    ' ') repeat _x
-`` , } MetaData Foo
-    {a1 Z9_ ,
-options1 T ,u32 u8x
-`crlf
-line`, metadata falsey,lengthOf
-x_y_z ,
-    } packet calculatedFrom { @tag( 3 ) string A,
-    match leftPad as a1	{//	t
-0123456789: calculatedFrom , }
-    ,
-    match crc//
-as
-    body {
-    00 : _x, } , o @calculatedFrom(	""x y"" )
-//
-// " ++ [128512]%N ++ runes_of_ascii " emoji
-,  } packet T { }  packet Logon { @leftPad
-(// @lengthOf(
-'\x00' )
-As @calculatedFrom(
-""a	b"" ) `line1
-line2`	, pack lengthOf // `tick` ""quote"" 'q'
-, } // `tick` ""quote"" 'q'")).
-Eval vm_compute in ("<<<M1498>>>" ++ check (runes_of_ascii "root packet crc {
-    @lengthOf(As)
-    @calculatedFrom(""\" ++ [233]%N ++ runes_of_ascii """)
-    zchar[4294967296] MetaDataX `doc`,/// triple
-    rootA @calculatedFrom(""it's""),
-    @tag(65535)
-    @tag(7)
-    @tag(00)
-    len @lengthOf(A) `two words`,
-    // trailing space 
-    // " ++ [128512]%N ++ runes_of_ascii " emoji
-    string rootA @lengthOf(pack),
-    // " ++ [128512]%N ++ runes_of_ascii " emoji
-    // trailing space 
-    repeat zchar,
-    @calculatedFrom(""abc"")
-    @leftPad('\x00')
-    @rightPad()
-    match x_y_z as Z9_ {
-        ""it's"" : Logon,
-        ""x y"" : Packet,
-        ""abc"" : trueish,
-        4294967296 : repeatCount,
-        """ ++ [128512]%N ++ runes_of_ascii """ : x_y_z,
-    },
-    char[10] stringy `it's`,
-    @leftPad('\x00')
-    rootA @lengthOf(i64_),
-}
-
-MetaData falsey {
-    Packet repeatCount `tab	here`,
-}
-
-MetaData string_ {
-    float64 roots `line1
-    line2`,
-    char As `
-    `,
-    zchar[65535] falsey `a\`,
-    A T,
-    _x metadata,
-}
-
-packet _x {
-    zchar[255] string_ @lengthOf(u128) `{ , }`,
-}
-
-root packet Packet {
-    repeat lengthOf,
-}")).
-Eval vm_compute in ("<<<M1350>>>" ++ check (runes_of_ascii "options {
-    StringPrefixLenType = u64;
-    ArrayPrefixLenType = u32;
-    FixedStringPadFromLeft = false;
-}
-packet Party {
-    zchar[7] OrderId,
-    InTail6 {
-        repeat char[1] msgKind,
-        char[3] Tail,
-        char[3] Flags,
-        i16 tag7,
-    },
-    @rightPad('0') char[12] clOrdID,
-}
-packet Quote {
-    @leftPad('0') char[11] price,
-    repeat InCount7 {
-        i32 x,
-        Party,
-        u8 Ref,
-        u8 tag7,
-    },
-    char[] seqNo,
-    Party,
-}
-packet Logon {
-    @rightPad('\x00') char[5] Note,
-    i16 sym,
-    InPrice72 {
-        char[9] Ref,
-        zchar[1] venue,
-    },
-    char[] clOrdID,
-}
-root packet Reject {
-    repeat Logon,
-    @leftPad(' ') char[4] seqNo,
-    zchar[5] Acct,
-    u32 x,
-    u16 f1 @lengthOf(Body),
-    match x as Body {
-        [169, 74] : Quote,
-        45 : Party,
-        7 : Logon,
-    },
-}
-")).
-Eval vm_compute in ("<<<M1483>>>" ++ check (runes_of_ascii "packet 	 // packet A { u8 x, }
-  tag	{
-
-@calculatedFrom(	""x y""  )lengthOf{options1`
-`, 
-}	,
-
-    @tag( 
-7
-
-    )
-    int  { 
-    //x
-
-// " ++ [27880; 37322]%N ++ runes_of_ascii "
-  char[  007 
-] // `tick` ""quote"" 'q'
-      calculatedFrom
-@lengthOf(
-metadata 
-) ,
-
-tag
-@lengthOf(falsey) , f32 
-// " ++ [128512]%N ++ runes_of_ascii " emoji
-    calculatedFrom 
-	// `tick` ""quote"" 'q'
-
-	//
-
-	`{ , }`
-    ,  i8i8 {  string i64_	@lengthOf(
-asx  )
-
-`it's`	, 
-u 
-@calculatedFrom(
-
-""\n""
-)
-, }
-
-    ,
-} 
-,
-@calculatedFrom(	""abc""  //
-)
-@leftPad( 
-' '
-	)  uint64  calculatedFrom	, 	 // " ++ [27880; 37322]%N ++ runes_of_ascii "
-
-	}
-packet
-o  { Header,
-@lengthOf(
-
-i8i8 )
-
-float32
-
-Pad  // c
-  ,
-
-char[
-
-42]leftPad
-@calculatedFrom(
-	"""" // " ++ [128512]%N ++ runes_of_ascii " emoji
-    )	, 
-@tag(255
-
-)body u
-,
-    } 
-packet lengthOf
-
-{ 
-    // packet A { u8 x, }
-	// c
-  @tag(
-255 	 //x
-      )char[ 0123456789	]
-	o
-`
-`,  }
-")).
-Eval vm_compute in ("<<<M369>>>" ++ check (runes_of_ascii "root
-packet leftPad { @calculatedFrom( """ ++ [128512]%N ++ runes_of_ascii """) int64 len
-`{ , }` , } packet
-    u128
-    { zchar[ 65535 ] chars @calculatedFrom( ""\" ++ [233]%N ++ runes_of_ascii """
-    ), @lengthOf(  int
-// packet A { u8 x, }
-// @lengthOf(
-) i64_ , crc { match	Z9_ as Logon
-    {
-10 : int ,
-[ 0 ]
-: u8x ,
-// trailing space 
 //x
-42 :
-    trueish , [ ""\" ++ [233]%N ++ runes_of_ascii """ , 4294967296
-    ]
-:Z9_
-    ""\n""	: u128 ,	} ,
-    repeat string_ uint8x, i8i8 , match u as body
-{ 4294967296:
-// " ++ [27880; 37322]%N ++ runes_of_ascii "
-/// triple
-Z9_, 10
-:	Z9_,
-[ """ ++ [128512]%N ++ runes_of_ascii """
-    ,
-    ""x y"" ]
-: pack ,
-    } , }
-, @tag( // " ++ [128512]%N ++ runes_of_ascii " emoji
-0123456789 )
-    @lengthOf( calculatedFrom) @leftPad ( '\x00' // c
-) zchar[ 3 ]
-    T ,
-match A  as
-    leftPad{ [ """ ++ [28040; 24687]%N ++ runes_of_ascii """ ] :i64_""// no comment"" :
-    string_
-    ,
-} , } // trailing space ")).
-Eval vm_compute in ("<<<M122>>>" ++ check (runes_of_ascii "
-packet u128  { // trailing space 
-string  Header `say ""hi""` , repeat crc
-f32a,
-    char[ 10
-    ] _x	,	@calculatedFrom( ""x y""	) repeat
-    //
-    charz	{
-    Logon @lengthOf(T) `crlf
-line`
-, repeat char[ // trailing space 
-0123456789 ]Z9_
-    `crlf
-line` ,
-    } ,
-    match Packet
-    as
-// " ++ [128512]%N ++ runes_of_ascii " emoji
 // `tick` ""quote"" 'q'
-float // a // b
-{
-    1
-:  lengthOf }  ,  MetaDataX , match x as
-u8x { 10 :crc } , } root packet // `tick` ""quote"" 'q'
-Header // a // b
-{ @calculatedFrom( ""{,}"") a1
-    {  char[
-    // packet A { u8 x, }
-    007 ] pack ,stringy //x
-zchar
-    , repeat
-char[]
-    // " ++ [128512]%N ++ runes_of_ascii " emoji
-    o `it's`	, } , }")).
-Eval vm_compute in ("<<<M113>>>" ++ check (runes_of_ascii "options	{
-As
-= // packet A { u8 x, }
-' '}MetaData o{} root packet pack
-{ } packet tag // " ++ [128512]%N ++ runes_of_ascii " emoji
-{ match falsey as
-BodyLength	{ 4294967296
-:
-    lengthOf
+: uint8x ,[ // packet A { u8 x, }
+""`tick`"" ,0
+    , 42
+    ] : _x[ 0123456789	, ""\" ++ [233]%N ++ runes_of_ascii """
+    ] :
+i8i8,	} ,	}
+")).
+Eval vm_compute in ("<<<M208>>>" ++ check (runes_of_ascii "packet // packet A { u8 x, }
+u8x {}root packet
+    matchKey{
+repeat zchar[ 0123456789 ] // packet A { u8 x, }
+int , char[
+// `tick` ""quote"" 'q'
+// a // b
+4294967296 ]
+asx `{ , }`
+    ,
+repeat i8i8, repeat Packet { repeat
+    leftPad {	f32 u128
+@lengthOf(As ), body`two words` ,// packet A { u8 x, }
+rootA Pad , } , char[ 00
+] msg_type `tab	here` // " ++ [128512]%N ++ runes_of_ascii " emoji
+,
+    repeat
+    //x
+    i64_ `doc` , zchar x_y_z ,}
+,
+}
+root
+packet int {
+repeat f32a {repeat f32a  asx
+`u8 x,` ,} ,@lengthOf(
+// @lengthOf(
+//	t
+msg_type// packet A { u8 x, }
+) body ,
+// c
+//
+Z9_ // c
+zchar `a\` //x
+, } //x")).
+Eval vm_compute in ("<<<M66>>>" ++ check (runes_of_ascii "packet	int {// @lengthOf(
+repeat
+string
+    BodyLength
+    `a\`
+    , } packet repeatCount { @lengthOf( x_y_z ) crc ,
+    match Packet as
+Z9_{""// no comment"" :MetaDataX ,
+//	t
+// a // b
+[  00, 7]: chars ,""CRC32""
+    : zchar 42: stringy //	t
+, [ ""a\""b"",""1""// a // b
+] : u ,
+},
+@rightPad
+( ' ' )
+@lengthOf( i64_//x
+)
+    repeat
+f64
+x `two words`
+    , @calculatedFrom(""`tick`""	) int64 falsey @lengthOf(//x
+u128 ) , charz
+    {
+    //x
+    char[]
+    T
 // c
 // " ++ [27880; 37322]%N ++ runes_of_ascii "
-,[ ""x y""
-,""a\\""
-    ]
-    : rootA , [
-42 , ""a	b"" ,
-    ""CRC32"" , 65535 ,""abc"" , 007 ]
-:
-u8x	""x y"" : A ,
-    /// triple
-    65535 :  i64_,
-    0123456789 :
-    Packet }
-    , @lengthOf(  msg_type)	pack msg_type,
-    @tag( 0 )@lengthOf( Packet
-)/// triple
-@tag(
-3 )
+`a\` ,
+}
+,@lengthOf(
+    u8x)string_, repeat
+// " ++ [128512]%N ++ runes_of_ascii " emoji
 //	t
-// " ++ [128512]%N ++ runes_of_ascii " emoji
-Foo , repeat float64 zchar, @calculatedFrom(
-""a\""b""
-) @lengthOf(A )@lengthOf( roots
-) options1 @lengthOf(
-Z9_ ),char[] T ,  }")).
-Eval vm_compute in ("<<<M1872>>>" ++ check (runes_of_ascii "options {
-    ArrayPrefixLenType = u64;
-    FixedStringPadFromLeft = true;
-    FixedStringPadChar = '0';
-}
-
-packet Quote {
-}
-
-packet Ack {
-    repeat InNote66 {
-        u8 pad0,
+x
+    , }
+")).
+Eval vm_compute in ("<<<M1910>>>" ++ check (runes_of_ascii "packet Logon {
+    repeatCount {
+        BodyLength `crlf
+                line`,
     },
-}
-
-packet Reject {
-}
-
-root packet Order {
-    Quote,
-    repeat Reject,
-    string venue,
-    string seqNo,
-    uint32 Ref,
-    u16 lastPx,
-    u32 clOrdID @lengthOf(Body),
-    match lastPx as Body {
-        190 : Reject,
-        186 : Quote,
-        22 : Ack,
+    zchar a1 `u8 x,`,
+    match Foo as Foo {
+        ""\n"" : i8i8,
+        [""abc"", ""CRC32""] : crc,
+        [
+            3, ""x y"", 42, ""`tick`"", 1,
+            ""a\""b"", ""CRC32"", 255
+        ] : repeatCount,
+        [
+            1, 007, ""\n"", 007, 7,
+            ""// no comment"", 255
+        ] : uint8x,
+        00 : f32a,
     },
-    u16 Flags @calculatedFrom(""CR\
-        C32""),
+    // a // b
+    uint16 Pad @lengthOf(uint8x) `doc`,
 }")).
-Eval vm_compute in ("<<<M138>>>" ++ check (runes_of_ascii "packet Header{ char[	10
-] A`it's` , @calculatedFrom(	""" ++ [28040; 24687]%N ++ runes_of_ascii """)calculatedFrom // a // b
-@lengthOf( zchar ) `tab	here` ,  u32	BodyLength,
-@lengthOf(
-    stringy  ) //
-@rightPad (
-    ' ') @tag(
-0123456789 )
-body{ match i8i8 as
-Foo
-{ [ 7 ,	""CRC32"" ] : options1 ,[""a\""b"" , """ ++ [128512]%N ++ runes_of_ascii """ ,
-    ""it's""
-    , ""a	b"" ,
-""// no comment"" , ""it's"" , 7,""abc""  ] :
-As  ,
-1 :
-_x
-// " ++ [128512]%N ++ runes_of_ascii " emoji
-//
-} , repeat  uint8x{crc
-@calculatedFrom( ""a\\""
-), } ,
-    repeat  i8 tag ,// " ++ [128512]%N ++ runes_of_ascii " emoji
+Eval vm_compute in ("<<<M1375>>>" ++ check (runes_of_ascii "options {
+    LittleEndian = true;
+    StringPrefixLenType = u64;
+    ArrayPrefixLenType = u16;
+    FixedStringPadFromLeft = false;
+    FixedStringPadChar = ' ';
 }
-, }
-
+packet Logon {
+    zchar[5] Side2,
+}
+root packet Logout {
+    repeat i64 Tail,
+    Logon,
+    repeat i16 OrderId,
+    char[] venue,
+    uint64 x,
+    repeat i16 count,
+    u8 Flags,
+    match Flags as Body {
+        25 : Logon,
+    },
+    u16 Qty @calculatedFrom(""CRC32""),
+}
 ")).
-Eval vm_compute in ("<<<M0>>>" ++ check (runes_of_ascii "packet leftPad// trailing space 
-{@tag( 10 )
-    @tag( 007 ) @lengthOf(	a1 )
-// a // b
-//
-repeat metadata
-    ,
-} // " ++ [128512]%N ++ runes_of_ascii " emoji
+Eval vm_compute in ("<<<M1271>>>" ++ check (runes_of_ascii "options { // c1a
+  // c1b
+LittleEndian
+    // c2
+= // c3
+true // c4
+; } // c6a
+  // c6b
+packet B { u8 // c10a
+  // c10b
+a
+    // c11
+, // c12a
+  // c12b
+string // c13
+s // c14
+, } // c16
+root // c17a
+  // c17b
+packet
+    // c18
+P // c19
+{ u16 // c21
+L @lengthOf( B ) // c25a
+  // c25b
+, // c26a
+  // c26b
+B // c27a
+  // c27b
+,
+    // c28
+u8
+    // c29
+t // c30
+, // c31
+} // c32a
+  // c32b
+")).
+Eval vm_compute in ("<<<M15>>>" ++ check (runes_of_ascii "MetaData // c
+u128{
+    }MetaData
+    a1 {
+}
+    root packet	o {	char[
+10 ]  stringy @lengthOf( Z9_) ,
+match
+x_y_z as stringy
+{	3
+: float ,
+    } , @leftPad //	t
+( ' '
+    ) u128 {	repeat i32 msg_type `crlf
+line` , x	, repeat char[	65535
+] T, match
+    A as
+i8i8 { """ ++ [128512]%N ++ runes_of_ascii """ : Logon
+, } //
+, } ,
+@rightPad (  '\x00') repeat x_y_z options1 `two words` , }
+")).
+Eval vm_compute in ("<<<M194>>>" ++ check (runes_of_ascii "// `tick` ""quote"" 'q'
 options
-    // @lengthOf(
-    { lengthOf
-= """ ++ [128512]%N ++ runes_of_ascii """	;
-}  packet T
-    // " ++ [27880; 37322]%N ++ runes_of_ascii "
-    { A
-{
-//
-// `tick` ""quote"" 'q'
-tag@calculatedFrom(""abc"")
-, }
-    , @lengthOf( matchKey
-    ) string	Header @lengthOf( metadata
-) ,leftPad
-    // trailing space 
-    @calculatedFrom(
-""a\""b"" )`crlf
-line`,}
-")).
-Eval vm_compute in ("<<<M74>>>" ++ check (runes_of_ascii "options{ u = 7
-    // " ++ [27880; 37322]%N ++ runes_of_ascii "
-    roots
-=zchar[
-65535
-    ]
-msg_type = """ ++ [233]%N ++ runes_of_ascii "t" ++ [233]%N ++ runes_of_ascii """
-; x =false
-    } MetaData string_ { char[ // trailing space 
-42
-//x
-// " ++ [128512]%N ++ runes_of_ascii " emoji
-]
-i8i8 `" ++ [28040; 24687; 31867; 22411]%N ++ runes_of_ascii "`	, u8
-    x_y_z
-, packetx lengthOf``
-    // " ++ [27880; 37322]%N ++ runes_of_ascii "
-    ,
-T Header `line1
-line2` ,
-char[] // " ++ [27880; 37322]%N ++ runes_of_ascii "
-u8x `two words` ,}packet
-float //x
-{
-    calculatedFrom
-    ,
-@rightPad ( '0'
-) char[
-    3
-] u128 , } 	 ")).
-Eval vm_compute in ("<<<M100>>>" ++ check (runes_of_ascii "
-root packet
-a1
-    {
-tag Pad``
-, } options {
-}
-    root packet int	{
-    uint64 f32a , } packet
-MetaDataX {// c
-@leftPad( ' ' ) /// triple
-repeat uint16 Header	`{ , }`
-,
-// `tick` ""quote"" 'q'
-/// triple
-}
-options {
-Z9_= false
-    falsey //	t
-= ""x y"" ; rootA = false
-    // a // b
-    Foo	=true
-lengthOf
-    = float64 }")).
-Eval vm_compute in ("<<<M262>>>" ++ check (runes_of_ascii "  packet  Logon
-    { o Header ,	Header
-, @lengthOf(
-u )	char[ 255 ] tag `tab	here`, char[]falsey ,
-    @lengthOf(	zchar )
-    @rightPad (
-) float roots// @lengthOf(
-,
-@calculatedFrom(	""// no comment"") i64
-u8x,
-} options { metadata = '0' ;_x = 4294967296 ; Packet
-    =
-    '0'
-;
-    }
-
-")).
-Eval vm_compute in ("<<<M80>>>" ++ check (runes_of_ascii "packet
-    len { // trailing space 
-repeat zchar f32a `// not a comment` , @tag( 255 )repeat  Pad { x T
-, } , @calculatedFrom(
-""{,}"") repeat
-    // a // b
-    leftPad { u64 u8x `tab	here` ,o Packet
-    ,char[] chars , } , @tag( 3 )float64
-    i8i8 , }
-")).
-Eval vm_compute in ("<<<M124>>>" ++ check (runes_of_ascii "MetaData Z9_
-{zchar[4294967296 ]
-    leftPad `u8 x,`,
-}
-MetaData body { trueish
-    len `// not a comment` , }root
-packet // @lengthOf(
-u8x{ char[ 10 ] x
-    @calculatedFrom(
+    //	t
+    { }  packet lengthOf // `tick` ""quote"" 'q'
+{  } packet
 // a // b
-// packet A { u8 x, }
-""\" ++ [233]%N ++ runes_of_ascii """ ) , }
+// " ++ [27880; 37322]%N ++ runes_of_ascii "
+Foo {
+@tag(
+1
+) string
+uint8x ,_x { chars  , string uint8x , i64 _x //
+`it's`
+    , repeat uint8 As,	}
+, float32
+f32a , @leftPad( '\x00')
+    @calculatedFrom( """ ++ [28040; 24687]%N ++ runes_of_ascii """
+) // trailing space 
+uint8 Logon
+,
+    }")).
+Eval vm_compute in ("<<<M1384>>>" ++ check (runes_of_ascii "
+options
+	{
+LittleEndian =	true
+; }
+	packet 
+Logon {
+
+    u8
+
+x ,  string user
+,}
+packet
+    Logout 
+{
+
+u16
+	reason,
+} packet
+
+Empty
+	{
+
+}
+    root 
+packet
+
+    Frame
+{
+	u16 MsgType
+    , 
+u8 BodyLen
+
+    @lengthOf(Body
+
+    ) , u8	flags ,	Logon
+Body ,
+
+    u32
+	trailer
+
+    ,}")).
+Eval vm_compute in ("<<<M1320>>>" ++ check (runes_of_ascii "packet P1 {
+    u8 a,
+}
+packet P2 {
+    P1,
+}
+packet P3 {
+    P2,
+    P1,
+}
+packet P4 {
+    repeat P3,
+    P2,
+}
+root packet P5 {
+    P4,
+    P3,
+    P1,
+    u8 K,
+    match K as Body {
+        4 : P4,
+        3 : P3,
+        2 : P2,
+        1 : P1,
+    },
+}
 ")).
+Eval vm_compute in ("<<<M1784>>>" ++ check (runes_of_ascii "packet i8i8 {
+    repeat char[00] Pad `a\`,
+    @leftPad('\x00')
+    string a1 @lengthOf(tag) ``,
+    float64 u128 @calculatedFrom(""1""),
+    @lengthOf(x)
+    u128 @lengthOf(tag) `" ++ [28040; 24687; 31867; 22411]%N ++ runes_of_ascii "`,
+    int64 u,
+    A T `say ""hi""`,
+}")).
 Eval vm_compute in ("<<<M92>>>" ++ check (runes_of_ascii "packet lengthOf { } root packet leftPad {  zchar[00// a // b
 ]
     Foo `` // c
@@ -700,76 +643,43 @@ Eval vm_compute in ("<<<M92>>>" ++ check (runes_of_ascii "packet lengthOf { } ro
 ( ' ')
 repeat u8
 options1 , }")).
-Eval vm_compute in ("<<<M1476>>>" ++ check (runes_of_ascii "
-packet  A 
-{match 
-k as
-
-n
-{  [
-
-    ""a"" 
-, 
-22
-
-,	""c c"", 4
-
-    ,
-
-    ""e"",
-
-    66
-
-    , ""g""
-	,	8 ,  ""i"" 
-, 10 
-, ""k"" ,12
-
-    ]
-	:
-    B
-
-2 :
-C 
-}, }
-
+Eval vm_compute in ("<<<M62>>>" ++ check (runes_of_ascii "packet
+crc { @leftPad //	t
+( ) repeat
+charz float
+    ,} root packet
+options1 {
+@tag( 65535/// triple
+)packetx
+{ u128 , f32 /// triple
+a1 ,
+    } , }
+// trailing space 
 ")).
-Eval vm_compute in ("<<<M1525>>>" ++ check (runes_of_ascii "
-
-  packet 
-A
-
-{match
-
-k
-
-as  n
-
-    {
-[
-    ""a"" 
-,  ""bb""
-,""c c""  ,""d""
-,
-""e"", ""f""
-
-    ,""g"" 
-, ""h"" 
-]
-:  B
-
-    ,
-
-    2 
-:
-    C
-    }
-,
-
-    } ")).
-Eval vm_compute in ("<<<M416>>>" ++ check (runes_of_ascii "packet uint8x
+Eval vm_compute in ("<<<M1645>>>" ++ check (runes_of_ascii "packet A {
+    Inner {
+        match k as n {
+            [
+                1, 22, 007, 4, 5,
+                66, 7, 8, 9
+            ] : B,
+        },
+    },
+}")).
+Eval vm_compute in ("<<<M478>>>" ++ check (runes_of_ascii "packet uint8x
 { match pack
-    as as msg_type	{
+    as msg_type	{
+    0123456789 :	float
+}
+,
+} packet //	t
+a1
+    { char[ options {packetx
+    = '\x00'	; u128= ""a	b""  ; }
+")).
+Eval vm_compute in ("<<<M542>>>" ++ check (runes_of_ascii "$ packet uint8x
+{ match pack
+    as msg_type	{
     0123456789 :	float
 }
 ,
@@ -778,281 +688,253 @@ a1
     { } options {packetx
     = '\x00'	; u128= ""a	b""  ; }
 ")).
-Eval vm_compute in ("<<<M672>>>" ++ check (runes_of_ascii "// @lengthOf(
+Eval vm_compute in ("<<<M442>>>" ++ check (runes_of_ascii "packet uint8x
+{ match pack
+    as msg_type	{
+    0123456789 :	}
+float
+,
+} packet //	t
+a1
+    { } options {packetx
+    = '\x00'	; u128= ""a	b""  ; }
+")).
+Eval vm_compute in ("<<<M483>>>" ++ check (runes_of_ascii "packet uint8x
+{ match pack
+    as msg_type	{
+    0123456789 :	float
+}
+,
+} packet //	t
+a1
+    { } '\x00' {packetx
+    = '\x00'	; u128= ""a	b""  ; }
+")).
+Eval vm_compute in ("<<<M533>>>" ++ check (runes_of_ascii "packet uint8x
+{ match pack
+    as msg_type	{
+    0123456789 :	float
+}
+,
+} packet //	t
+a1
+    { } options {packetx
+    = '\x00'	; u128= ""a	b""  ;")).
+Eval vm_compute in ("<<<M723>>>" ++ check (runes_of_ascii "// @lengthOf(
 packet i8i8 { u128 o , }
-options { MetaDataX = true;
+options { MetaD?ataX = true;
     BodyLength =""packet"" x_y_z= 007
 crc //x
 = ""abc"" ;
     msg_type =
-@leftpad i16 }")).
-Eval vm_compute in ("<<<M457>>>" ++ check (runes_of_ascii "packet uint8x
-{ match pack
-    as msg_type	{
-    0123456789 :	float
-}
-,
-packet } //	t
-a1
-    { } options {packetx
-    = '\x00'	; u128= ""a	b""  ; }
-")).
-Eval vm_compute in ("<<<M495>>>" ++ check (runes_of_ascii "packet uint8x
-{ match pack
-    as msg_type	{
-    0123456789 :	float
-}
-,
-} packet //	t
-a1
-    { } options {packetx
-     '\x00'	; u128= ""a	b""  ; }
-")).
-Eval vm_compute in ("<<<M1534>>>" ++ check (runes_of_ascii "
-packet 
-
-    // " ++ [27880; 37322]%N ++ runes_of_ascii "
-Logon
-
-{
-	repeatCount@lengthOf(roots  ) ,
-	@tag(0
-
-    ) repeat	zchar[
-
-007] crc
-, rootA
-    a1	`{ , }`
-	,	string_ 
-`" ++ [233]%N ++ runes_of_ascii "`
-,}")).
-Eval vm_compute in ("<<<M1871>>>" ++ check (runes_of_ascii "packet A {
-    match k as n {
-        [
-            ""a"", ""bb"", ""c c"", ""d"", ""e"",
-            ""f"", ""g"", ""h""
-        ] : B,
-        2 : C,
-    },
-}")).
-Eval vm_compute in ("<<<M1649>>>" ++ check (runes_of_ascii "
-options
-
-    {
-	o=  '\x00'	// " ++ [128512]%N ++ runes_of_ascii " emoji
-  ;
-    T=	u32 ; 
-msg_type  
-      // `tick` ""quote"" 'q'
-
-//
-    = ""a	b""a1 =	'\x00'	}
-	// " ++ [128512]%N ++ runes_of_ascii " emoji")).
-Eval vm_compute in ("<<<M714>>>" ++ check (runes_of_ascii "// @lengthOf(
+i16 }")).
+Eval vm_compute in ("<<<M710>>>" ++ check (runes_of_ascii "// @lengthOf(
 packet i8i8 { u128 o , }
 options { MetaDataX = true;
     BodyLength =""packet"" x_y_z= 007
 crc //x
 = ""abc"" ;
-    msg_type")).
-Eval vm_compute in ("<<<M1397>>>" ++ check (runes_of_ascii "packet A {
-    match k as n {
-        [
-            ""a"", 22, ""c c"", 4, ""e"",
-            66
-        ] : B,
-        2 : C,
-    },
+    msg_type 
+i16 }")).
+Eval vm_compute in ("<<<M1598>>>" ++ check (runes_of_ascii "packet _x {
+    //
+    repeat zchar[1] metadata,
+    @leftPad(' ')
+    @lengthOf(T)
+    @lengthOf(Z9_)
+    char[] As,
+    string f32a,
 }")).
-Eval vm_compute in ("<<<M1194>>>" ++ check (runes_of_ascii "// top
-packet // c0
-body // c1
-{ // c2
-i32 // c3
-f32a // c4
-`{ , }` // c5
-, // c6
-} // c7
-options // c8
-{ // c9
-} // c10
+Eval vm_compute in ("<<<M1822>>>" ++ check (runes_of_ascii "packet u128 {
+    @calculatedFrom(""x y"")
+    // `tick` ""quote"" 'q'
+    @rightPad(' ')
+    char[42] Header @calculatedFrom(""abc""),
+}")).
+Eval vm_compute in ("<<<M1676>>>" ++ check (runes_of_ascii "
+
+  options{ 
+LittleEndian
+    = 
+true
+    ; }
+root packet
+
+    P{u16
+	a
+    , u32 
+Sum
+@calculatedFrom( ""CRC32"" ),	}
 ")).
-Eval vm_compute in ("<<<M1160>>>" ++ check (runes_of_ascii "MetaData leftPad { chars MetaDataX , } packet repeatCount
-// c
-{ char[ 255 ] uint8x `" ++ [233]%N ++ runes_of_ascii "` , } MetaData pack { As Foo , }")).
-Eval vm_compute in ("<<<M1906>>>" ++ check (runes_of_ascii "
-packet A	{  match k
-
-as  n	{[
-
-    ""a""
-, 
-""bb"" 
-,	007 , ""d"", ""e""
-    ]
-	:
-
-    B
-	,
-
-    2  :C
-
-} ,
-
-    } ")).
-Eval vm_compute in ("<<<M943>>>" ++ check (runes_of_ascii "packet A {
-    u16 len @lengthOf(body) `a
-
-b`,
-    u32 crc @calculatedFrom(""CRC32"") `a
-
-b`,
-    string body,
+Eval vm_compute in ("<<<M1155>>>" ++ check (runes_of_ascii "MetaData leftPad { chars MetaDataX , } // c
+packet repeatCount { char[ 255 ] uint8x `" ++ [233]%N ++ runes_of_ascii "` , } MetaData pack { As Foo , }")).
+Eval vm_compute in ("<<<M1187>>>" ++ check (runes_of_ascii "MetaData leftPad { chars MetaDataX , } packet repeatCount { char[ 255 ] uint8x `" ++ [233]%N ++ runes_of_ascii "` , } MetaData pack { As Foo , // c
 }")).
-Eval vm_compute in ("<<<M535>>>" ++ check (runes_of_ascii "packet uint8x
-{ match pack
-    as msg_type	{
-    0123456789 :	float
-}
-,
-} packet //	t
-a1
-    { } opti")).
-Eval vm_compute in ("<<<M950>>>" ++ check (runes_of_ascii "packet A {
-    Inner {
-        u8 x `x
-`,
-        Deep {
-            u8 y `x
-`,
-        },
-    },
-}")).
-Eval vm_compute in ("<<<M1820>>>" ++ check (runes_of_ascii "packet  A{
-match k
-as n
-
-    {  [1
-,
-22	,
-007
-,  4
-, 5  ,
-
-66, 
-7  , 
-8
-	,
-9]:
-	B
-2:C }
-	,}
-
-")).
-Eval vm_compute in ("<<<M841>>>" ++ check (runes_of_ascii "packet A {
+Eval vm_compute in ("<<<M915>>>" ++ check (runes_of_ascii "packet A {
   match k as n {
-    [""a"", ""bb"", ""c c"", ""d"", ""e"", ""f"", ""g""] : B,
+    [""a"", ""bb"", 007, ""d"", ""e"", 66, ""g"", ""h"", 9, ""j"", ""k"", 12] : B
     2 : C
   },
 }")).
-Eval vm_compute in ("<<<M644>>>" ++ check (runes_of_ascii "
+Eval vm_compute in ("<<<M1396>>>" ++ check (runes_of_ascii "
+packet 
+uint8x
+{
+match pack
+
+as msg_type
+
+    { 0123456789:
+float	},
+    } packet	//	t
+  a1
+
+{
+}
+
+")).
+Eval vm_compute in ("<<<M896>>>" ++ check (runes_of_ascii "packet A {
+  match k as n {
+    [1, ""bb"", 007, ""d"", 5, ""f"", 7, ""h"", 9, ""j"", 11] : B
+    2 : C
+  },
+}")).
+Eval vm_compute in ("<<<M905>>>" ++ check (runes_of_ascii "packet A {
+  match k as n {
+    [1, 22, 007, 4, 5, 66, 7, 8, 9, 10, 11, 12] : B
+    2 : C
+  },
+}")).
+Eval vm_compute in ("<<<M580>>>" ++ check (runes_of_ascii "
+packet
+    asx {match u128 char[ lengthOf
+{
+//	t
+// `tick` ""quote"" 'q'
+255 : x ,
+    } ,	}")).
+Eval vm_compute in ("<<<M229>>>" ++ check (runes_of_ascii "// a // b
+options{
+Foo
+= '\x00'
+    pack
+= zchar[ 65535]
+// " ++ [128512]%N ++ runes_of_ascii " emoji
+//x
+;	int = ""\n"" ;	}
+")).
+Eval vm_compute in ("<<<M874>>>" ++ check (runes_of_ascii "packet A {
+  match k as n {
+    [1, 22, ""c c"", 4, 5, ""f"", 7, 8, ""i""] : B
+    2 : C
+  },
+}")).
+Eval vm_compute in ("<<<M592>>>" ++ check (runes_of_ascii "
 packet
     asx {match u128 as lengthOf
 {
 //	t
 // `tick` ""quote"" 'q'
-255 : x" ++ [178]%N ++ runes_of_ascii " ,
+ : x ,
     } ,	}")).
-Eval vm_compute in ("<<<M607>>>" ++ check (runes_of_ascii "
-packet
-    asx {match u128 as lengthOf
-{
-//	t
-// `tick` ""quote"" 'q'
-255 : x 
-    } ,	}")).
-Eval vm_compute in ("<<<M969>>>" ++ check (runes_of_ascii "packet A {
+Eval vm_compute in ("<<<M966>>>" ++ check (runes_of_ascii "packet A {
     u32 crc @calculatedFrom(""x\
 y""),
     @calculatedFrom(""x\
 y"") u8 y,
 }")).
-Eval vm_compute in ("<<<M748>>>" ++ check (runes_of_ascii "options match @lengthOf( options char[] zchar[ MetaData f32 f64 u16 ""{,}"" `doc` (")).
-Eval vm_compute in ("<<<M125>>>" ++ check (runes_of_ascii "//	t
-options {
-    roots  =  ""\n""	; o
-    //
-    = '0' ;
-tag
-    =true
-    }")).
-Eval vm_compute in ("<<<M806>>>" ++ check (runes_of_ascii "packet A {
+Eval vm_compute in ("<<<M916>>>" ++ check (runes_of_ascii "packet A { Inner { match k as n { [1,22,007,4,5,66,7,8,9,10,11,12] : B, }, }, }")).
+Eval vm_compute in ("<<<M810>>>" ++ check (runes_of_ascii "packet A {
   match k as n {
-    [""a"", 22, ""c c"", 4] : B,
+    [""a"", ""bb"", 007, ""d""] : B,
     2 : C
   },
 }")).
-Eval vm_compute in ("<<<M798>>>" ++ check (runes_of_ascii "packet A {
+Eval vm_compute in ("<<<M808>>>" ++ check (runes_of_ascii "packet A {
   match k as n {
-    [""a"", ""bb"", 007] : B
+    [1, 22, ""c c"", 4] : B,
     2 : C
   },
 }")).
-Eval vm_compute in ("<<<M167>>>" ++ check (runes_of_ascii "packet msg_type { repeat// " ++ [27880; 37322]%N ++ runes_of_ascii "
-zchar[  007] Logon `two words`, }
-")).
-Eval vm_compute in ("<<<M1102>>>" ++ check (runes_of_ascii "// top
-MetaData
-    // c0
-tag
-    // c1
-{ // c2
-}
-    // c3
-")).
-Eval vm_compute in ("<<<M764>>>" ++ check (runes_of_ascii "float32 true uint8 f32 i64 i32 @leftPad ) char[ } uint8")).
-Eval vm_compute in ("<<<M1205>>>" ++ check (runes_of_ascii "packet body { i32 // c
-f32a `{ , }` , } options { }")).
-Eval vm_compute in ("<<<M654>>>" ++ check (runes_of_ascii "// @lengthOf(
-packet i8i8 { u128 o , }
-options {")).
-Eval vm_compute in ("<<<M1725>>>" ++ check (runes_of_ascii "  packet A
+Eval vm_compute in ("<<<M1098>>>" ++ check (runes_of_ascii "packet A {
+    match k as n {
+        1 : B,
+        // c
+    },
+}")).
+Eval vm_compute in ("<<<M151>>>" ++ check (runes_of_ascii "packet
+    stringy
+{ } MetaData crc
+/// triple
+//x
+{ u16 o ,}")).
+Eval vm_compute in ("<<<M930>>>" ++ check (runes_of_ascii "packet A {
+    B b `
+`,
+    B `
+`,
+    repeat B bs `
+`,
+}")).
+Eval vm_compute in ("<<<M1930>>>" ++ check (runes_of_ascii "
 
+  MetaData  o
     {
-	u8 x	,  // c
-  u8
-y,	} ")).
-Eval vm_compute in ("<<<M1815>>>" ++ check (runes_of_ascii "root packet A {
-    u8 x `
-        `,
-}")).
-Eval vm_compute in ("<<<M946>>>" ++ check (runes_of_ascii "root packet A {
-    u8 x `a
+	}
 
-b`,
+MetaData T {	}options{ }
+")).
+Eval vm_compute in ("<<<M1741>>>" ++ check (runes_of_ascii "packet body {
+    i32 f32a `{ , }`,
+}
+
+options {
 }")).
-Eval vm_compute in ("<<<M1790>>>" ++ check (runes_of_ascii "packet A {
+Eval vm_compute in ("<<<M951>>>" ++ check (runes_of_ascii "MetaData M {
+    u8 x `x
+`,
+    T t `x
+`,
+}")).
+Eval vm_compute in ("<<<M1922>>>" ++ check (runes_of_ascii "// top
+MetaData tag {
+    // c2
+}
+// c3")).
+Eval vm_compute in ("<<<M1904>>>" ++ check (runes_of_ascii "packet A {
     u8 x `
-    x`,
+        x`,
 }")).
-Eval vm_compute in ("<<<M1941>>>" ++ check (runes_of_ascii "packet	A{ } 
-        // c" ++ [8203]%N ++ runes_of_ascii "
+Eval vm_compute in ("<<<M738>>>" ++ check (runes_of_ascii "\B1ss""~3@|Nr!9$[0mx>ti>t+Fp_cN&")).
+Eval vm_compute in ("<<<M1844>>>" ++ check (runes_of_ascii "
+MetaData
+tag
+
+{
+} 
+	// c
+")).
+Eval vm_compute in ("<<<M338>>>" ++ check (runes_of_ascii "root packet
+msg_type { }
+")).
+Eval vm_compute in ("<<<M1923>>>" ++ check (runes_of_ascii "// c" ++ [8203]%N ++ runes_of_ascii "
+		packet	A
+	{ }")).
+Eval vm_compute in ("<<<M1042>>>" ++ check (runes_of_ascii "// c 	
+packet A {
+}")).
+Eval vm_compute in ("<<<M1011>>>" ++ check (runes_of_ascii "packet A {
+}
+// c" ++ [8232]%N)).
+Eval vm_compute in ("<<<M979>>>" ++ check (runes_of_ascii "packet A {
+}// c" ++ [12288]%N)).
+Eval vm_compute in ("<<<M46>>>" ++ check (runes_of_ascii "//x
+
+// a // b
+")).
+Eval vm_compute in ("<<<M1815>>>" ++ check (runes_of_ascii "// c" ++ [11]%N ++ runes_of_ascii "
  
 ")).
-Eval vm_compute in ("<<<M1494>>>" ++ check (runes_of_ascii "root packet msg_type {
-}")).
-Eval vm_compute in ("<<<M1110>>>" ++ check (runes_of_ascii "MetaData tag {
-// c
-}")).
-Eval vm_compute in ("<<<M1687>>>" ++ check (runes_of_ascii "packet int {
-}
-//	t")).
-Eval vm_compute in ("<<<M1036>>>" ++ check (runes_of_ascii "packet A {
-}
-// c" ++ [12]%N)).
-Eval vm_compute in ("<<<M1029>>>" ++ check (runes_of_ascii "packet A {
-}// c" ++ [11]%N)).
-Eval vm_compute in ("<<<M1662>>>" ++ check (runes_of_ascii "packet pack {
-}")).
-Eval vm_compute in ("<<<M399>>>" ++ check (runes_of_ascii "packet")).
-Eval vm_compute in ("<<<M736>>>" ++ check (runes_of_ascii " " ++ [12]%N ++ runes_of_ascii " ")).
+Eval vm_compute in ("<<<M1823>>>" ++ check (runes_of_ascii "
+
+  ")).
